@@ -214,6 +214,9 @@ def isinstance_model_factory(facts):
 
 
 def method_model(ex, ctx, base, attr, args, kw):
+    r = FE.dim_subs_method(ex, ctx, base, attr, args, kw)
+    if r is not None:
+        return r
     if z3.is_expr(base) and base.sort() == M.VList and attr == "append":
         # in-place append: rebind every local that aliases this abstract list
         x = as_val(args[0])
